@@ -268,11 +268,12 @@ def powLL (a e : LinComb) : M LinComb := do
 def lshiftLI (a : LinComb) (n : Int) : M LinComb := fun s =>
   if n < 0 then .error .value else .ok (a.mulI (2 ^ n.toNat), s)
 
-/-- `self >> n` for a python int: `from_bits(self.to_bits()[n:])` (Python slice semantics) -/
-def rshiftLI (a : LinComb) (n : Int) : M (Option LinComb) := do
-  let bits ← toBits a none
-  let k : Nat := if n ≥ 0 then n.toNat else (bits.length - (-n).toNat)
-  pure (fromBits (bits.drop k))
+/-- `self >> n` for a python int: a negative count raises `ValueError("negative shift count")`
+before anything is traced (as `1 << n` does for `<<`); otherwise `from_bits(self.to_bits()[n:])` -/
+def rshiftLI (a : LinComb) (n : Int) : M (Option LinComb) := fun s =>
+  if n < 0 then .error .value else
+    (do let bits ← toBits a none
+        pure (fromBits (bits.drop n.toNat))) s
 
 /-- bitwise ops with a python int: an unconstrained fresh private value -/
 def andLI (a : LinComb) (c : Int) : M LinComb := privVal (Py.land a.value c)
